@@ -20,7 +20,15 @@ Clauses
   G4  Database.txo_to_row types claim/update outputs as a claim type, supports as support and
       everything else as 0 — claim-locked value is never typed spendable; purchase typing through
       tx_to_row on library-built and re-parsed purchase transactions.
+  G5  a generated script parses back to its template and values also after the transport every library-made script
+      takes: Output/Input.serialize_to -> Transaction.raw -> Transaction(raw) (how the wallet stores, broadcasts and
+      reloads its own claims).  The harness keeps what it put into the transaction (scripts, amounts, previous outputs,
+      lock time) and judges the re-read transaction against that; total script lengths sweep both sides of every
+      width change of the script-length prefix (252|253, 65535|65536) and so do the input / output counts.  A raw form
+      that differs from the reference framing (ref_tx below, written from the protocol documentation) is logged and the reference
+      form is then read by the library too (a script offered in a standard-framed transaction is the script classified).
 """
+import hashlib
 import json
 import os
 import random
@@ -34,7 +42,10 @@ RULE = ('generated scripts: every template (13 output, pubkey / pubkey_hash / ti
         'input, multi-sig only for the PUSH_MANY parser clause) x every value slot x the boundary lengths '
         '0,1,74..77,254..257,65534..65537,70000, every length 0..300 and 65500..65560 per slot (thorough: every '
         'length 0..70000 on three slots), lock heights of 1..5 byte widths, seeded random mixes, library '
-        'constructors with real Claim/Support/Purchase objects; byte strings: every string of length <=2 '
+        'constructors with real Claim/Support/Purchase objects; every generated script of the grid / random mixes and '
+        'every 4th of the sweeps carried through Transaction.raw -> Transaction(raw) between two guard scripts, plus '
+        'every template x slot fitted to every TOTAL script length 245..262 and 65528..65543 and transactions with '
+        '1,2,3,251..256,300 (thorough: 65535, 65536) generated input / output scripts; byte strings: every string of length <=2 '
         '(thorough: <=3 with an opcode-alphabet first byte), token-level edits of every template (drop / duplicate / '
         'confusable opcode / OP_n in a push slot / extra push / foreign tail / double head), 1-3 byte mutations, '
         'truncation at every offset, non-minimal re-encodings, concatenations of two templates, opcode-alphabet '
@@ -51,6 +62,9 @@ ASSUMPTIONS = [
     'input-side classification of arbitrary byte strings is logged, not judged (the classification sentence names output kinds only)',
     'negative lock heights are not generated; height 0 / empty hash refused by redeem_time_lock_script_hash is logged',
     'exceptions raised by txo_to_row (e.g. UnicodeDecodeError on a non-UTF-8 claim name) type nothing and are logged, not judged here',
+    'G5: the transaction wire layout (4-byte version, CompactSize counts and script lengths, 32+4 byte previous output, 4-byte '
+    'sequence, 8-byte amount, 4-byte lock time) is the Bitcoin one; library bytes that differ from it are only logged, what is judged '
+    'is what the library reads back; the bare time-lock script never travels as an input script of its own and is not carried',
 ]
 REQUIRED_HITS = [
     'ref.selfcheck_vectors', 'G1.roundtrip_checked', 'G1.via.ctor', 'G1.via.raw', 'G1.height_checked',
@@ -63,11 +77,17 @@ REQUIRED_HITS = [
     'G3.in.concat', 'G3.in.random', 'G3.in.fixture',
     'G3.kind.claim', 'G3.kind.update', 'G3.kind.support', 'G3.kind.data', 'G3.kind.payment', 'G3.kind.none',
     'G4.checked', 'G4.claimish_checked', 'G4.payment_checked', 'G4.purchase_checked',
+    'G5.carried_checked', 'G5.carried.output', 'G5.carried.input', 'G5.parse_checked', 'G5.script_len252', 'G5.script_len253',
+    'G5.script_len254', 'G5.script_len65535', 'G5.script_len65536', 'G5.count_checked', 'G5.count252', 'G5.count253',
+    'G5.count254',
 ]
 
 BOUNDARY = [0, 1, 74, 75, 76, 77, 254, 255, 256, 257, 65534, 65535, 65536, 65537, 70000]
 HEIGHTS = [0, 1, 16, 17, 127, 128, 255, 256, 32767, 32768, 65535, 65536, 2 ** 23 - 1, 2 ** 23, 2 ** 24 - 1, 2 ** 24,
            717738, 5 * 10 ** 8, 2 ** 31 - 1, 2 ** 31, 2 ** 32 - 1, 2 ** 32, 2 ** 39 - 1]
+FRAME_LENS = (252, 253, 254, 65535, 65536)        # script lengths / counts on both sides of every CompactSize width change
+FRAME_WINDOWS = [(245, 262), (65528, 65543)]
+TX_COUNTS = [1, 2, 3, 251, 252, 253, 254, 255, 256, 300]
 CLAIM_TYPES = (1, 2, 5, 6)        # stream, channel, collection, repost (lbry.wallet.constants.TXO_TYPES)
 TYPE_NAMES = {0: 'other', 1: 'stream', 2: 'channel', 3: 'support', 4: 'purchase', 5: 'collection', 6: 'repost'}
 
@@ -196,6 +216,21 @@ def gen_cases(rng, tier, shard, nshards):
                                          for s in slots}}
                         if mine():
                             yield case
+    # A2. transaction framing: every template x slot fitted to total script lengths around the CompactSize width changes;
+    #     numbers of inputs / outputs around the same boundaries
+    for side, table in (('output', OUT_T), ('input', IN_T)):
+        for tmpl in table:
+            if tmpl == 'timelock':
+                continue
+            for slot in slots_of(side, tmpl):
+                for lo, hi in FRAME_WINDOWS:
+                    if mine():
+                        yield {'fam': 'frame', 'side': side, 'tmpl': tmpl, 'slot': slot, 'lo': lo, 'hi': hi,
+                               'seed': (lo * 31 + len(tmpl) * 7 + len(slot)) & 0xffffffff}
+    for side in ('outputs', 'inputs'):
+        for n in TX_COUNTS + ([] if quick else [65535, 65536]):
+            if mine():
+                yield {'fam': 'txcount', 'side': side, 'n': n, 'seed': rng.getrandbits(40)}
     # B. sweeps of every length
     windows = [(0, 300), (65500, 65560)]
     for side, table in (('output', OUT_T), ('input', IN_T)):
@@ -256,7 +291,8 @@ def lib():
     if not _L:
         boot.import_lbry()
         from lbry.wallet import script as S
-        from lbry.wallet.transaction import Output, Input, Transaction
+        from lbry.wallet.transaction import Output, Input, Transaction, TXORef
+        from lbry.wallet.hash import TXRefImmutable
         from lbry.wallet.database import Database
         from lbry.wallet.ledger import Ledger
         from lbry.schema.claim import Claim
@@ -265,8 +301,8 @@ def lib():
         db = Database(':memory:')
         db.ledger = Ledger
         _L.update(S=S, OutputScript=S.OutputScript, InputScript=S.InputScript, Script=S.Script, Template=S.Template,
-                  Output=Output, Input=Input, Transaction=Transaction, db=db, Ledger=Ledger, Claim=Claim,
-                  Support=Support, Purchase=Purchase)
+                  Output=Output, Input=Input, Transaction=Transaction, TXORef=TXORef, TXRefImmutable=TXRefImmutable,
+                  db=db, Ledger=Ledger, Claim=Claim, Support=Support, Purchase=Purchase)
     return _L
 
 
@@ -474,8 +510,8 @@ def generate(rec, side, tmpl, via, vals, height):
     return s.source, cls, hint
 
 
-def check_generated(rec, side, tmpl, via, vals, height=None, replay=None, g3=True):
-    """vals: {slot: bytes}.  G1 + G2 (+ G3/G4 through check_output_bytes)."""
+def check_generated(rec, side, tmpl, via, vals, height=None, replay=None, g3=True, carry=False):
+    """vals: {slot: bytes}.  G1 + G2 (+ G3/G4 through check_output_bytes, + G5 through check_carried)."""
     L = lib()
     what = f'{side}:{tmpl} via {via} lens={ {k: len(v) for k, v in vals.items()} }' + (f' height={height}' if height is not None else '')
     try:
@@ -584,7 +620,188 @@ def check_generated(rec, side, tmpl, via, vals, height=None, replay=None, g3=Tru
                           {'source': hexs(src, 4000), 'sub_template': sname, 'sub_values': svals}, case=replay)
     if g3 and side == 'output':
         check_output_bytes(rec, src, 'generated:' + tmpl, replay=replay, count_case=False)
+    if carry and tmpl != 'timelock':
+        one = {'src': src, 'tmpl': tmpl, 'exp': exp_ref}
+        guards = carry_guards()
+        again = dict(replay, carry=True) if replay else None
+        if side == 'output':
+            check_carried(rec, guards['in'][:1], [guards['out'][0], one, guards['out'][1]], what, again)
+        else:
+            check_carried(rec, [guards['in'][0], one, guards['in'][1]], guards['out'][:1], what, again)
     return src
+
+
+# ------------------------------------------------------------------ G5: generated scripts carried in a transaction
+def ref_compact(n):
+    """Bitcoin CompactSize (the "variable length integer" of the protocol documentation): shortest of 1 / fd+2 / fe+4 / ff+8."""
+    if n < 0xfd:
+        return bytes([n])
+    if n <= 0xffff:
+        return b'\xfd' + n.to_bytes(2, 'little')
+    if n <= 0xffffffff:
+        return b'\xfe' + n.to_bytes(4, 'little')
+    return b'\xff' + n.to_bytes(8, 'little')
+
+
+def ref_tx(ins, outs, locktime, version=1):
+    """wire form of a transaction without witness data, from the protocol documentation ("tx" message).
+    ins: [(previous tx hash, previous index, script, sequence)] · outs: [(amount, script)]"""
+    out = bytearray(version.to_bytes(4, 'little') + ref_compact(len(ins)))
+    for h, pos, script, seq in ins:
+        out += h + pos.to_bytes(4, 'little') + ref_compact(len(script)) + script + seq.to_bytes(4, 'little')
+    out += ref_compact(len(outs))
+    for amount, script in outs:
+        out += amount.to_bytes(8, 'little') + ref_compact(len(script)) + script
+    return bytes(out + locktime.to_bytes(4, 'little'))
+
+
+_GUARDS = {}
+
+
+def carry_guards():
+    """neighbours of a carried script, assembled by the reference: they must come back untouched."""
+    if not _GUARDS:
+        _GUARDS['in'] = []
+        _GUARDS['out'] = []
+        for k in (1, 2):
+            vals = {'signature': bytes([0x30 + k]) * 71, 'pubkey': bytes([2, k]) + bytes(31)}
+            _GUARDS['in'].append({'src': R.build(R.INPUT_PATTERNS['pubkey_hash'][0], [vals['signature'], vals['pubkey']]),
+                                  'tmpl': 'pubkey_hash', 'exp': vals, 'guard': True})
+            vals = {'pubkey_hash': bytes([0xa0 + k]) * 20}
+            _GUARDS['out'].append({'src': R.build(R.OUTPUT_PATTERNS['pay_pubkey_hash'][0], [vals['pubkey_hash']]),
+                                   'tmpl': 'pay_pubkey_hash', 'exp': vals, 'guard': True})
+    return _GUARDS
+
+
+def expected_plain(tmpl, vals, height):
+    """the generating values in the shape plain_parse gives (time-lock sub-script as a dict)."""
+    if tmpl == 'script_hash+timelock':
+        return {'signature': vals['signature'], 'pubkey': vals['pubkey'],
+                'script': {'height': height, 'pubkey_hash': vals['pubkey_hash']}}
+    return dict(vals)
+
+
+def plain_parse(script):
+    """(template name, values) of a library Script; a sub-script value is replaced by the dict of its own values."""
+    return script.template.name, {k: (dict(v.values) if hasattr(v, 'template') else v) for k, v in script.values.items()}
+
+
+def check_carried(rec, ins, outs, what, replay):
+    """G5.  ins / outs: [{'src': script bytes, 'tmpl': generating template, 'exp': generating values}] in transaction order
+    (at least one input: a transaction without inputs reads as the segwit marker).  The library builds the transaction,
+    serialises it and reads its own bytes again; everything is compared with what the harness put in.  -> raw or None"""
+    L = lib()
+    Tx, Input, Output = L['Transaction'], L['Input'], L['Output']
+    put_ins = [(hashlib.sha256(b'C15 previous tx %d' % k).digest(), k % 5, e['src'], 0xffffffff - (k % 3)) for k, e in enumerate(ins)]
+    put_outs = [(1000 + 7 * k, e['src']) for k, e in enumerate(outs)]
+    locktime = 500000 + len(ins) + len(outs)
+    try:
+        tx = Tx(locktime=locktime)
+        tx.add_inputs([Input(L['TXORef'](L['TXRefImmutable'].from_hash(h, -1), pos), L['InputScript'](src), seq)
+                       for h, pos, src, seq in put_ins])
+        tx.add_outputs([Output(amount, L['OutputScript'](src)) for amount, src in put_outs])
+        raw = tx.raw
+    except Exception as x:  # noqa
+        rec.violation(f'C15/G5/carried-in-tx/serialize-raises/{type(x).__name__}',
+                      f'{what}: building / serialising the transaction raised {x!r}',
+                      {'input_script_lengths': [len(e['src']) for e in ins][:300],
+                       'output_script_lengths': [len(e['src']) for e in outs][:300]}, case=replay)
+        return None
+    rec.hit('G5.carried_checked')
+    for side, els in (('input', ins), ('output', outs)):
+        if len(els) in FRAME_LENS:
+            rec.hit(f'G5.count{len(els)}')
+        for e in els:
+            if not e.get('guard'):
+                rec.hit('G5.carried.' + side)
+                if len(e['src']) in FRAME_LENS:
+                    rec.hit(f'G5.script_len{len(e["src"])}')
+    forms = [('carried-in-tx', raw)]
+    ref_raw = ref_tx(put_ins, put_outs, locktime)
+    if raw != ref_raw:
+        rec.log('G5.raw_differs_from_reference_framing(logged)')
+        forms.append(('reference-framed-tx', ref_raw))
+    for clause, data in forms:
+        lens = f'{len(ins)} inputs with script lengths {[len(e["src"]) for e in ins][:6]}, {len(outs)} outputs with script lengths ' \
+               f'{[len(e["src"]) for e in outs][:6]}'
+        wit = {'raw': hexs(data, 1200), 'input_script_lengths': [len(e['src']) for e in ins][:300],
+               'output_script_lengths': [len(e['src']) for e in outs][:300]}
+        try:
+            again = Tx(data)
+            got_ins = [(i.txo_ref.tx_ref.hash, i.txo_ref.position, i.coinbase if i.script is None else i.script.source, i.sequence)
+                       for i in again.inputs]
+            got_outs = [(o.amount, o.script.source) for o in again.outputs]
+            got_lock = again.locktime
+        except Exception as x:  # noqa
+            rec.violation(f'C15/G5/{clause}/reread-raises/{type(x).__name__}',
+                          f'{what}: Transaction(raw) of the transaction carrying the script ({lens}) raised {x!r}', wit, case=replay)
+            continue
+        if len(got_ins) != len(put_ins) or len(got_outs) != len(put_outs):
+            rec.violation(f'C15/G5/{clause}/count-changed', f'{what}: wrote {lens}; read back {len(got_ins)} inputs, {len(got_outs)} outputs',
+                          wit, case=replay)
+            continue
+        bad = None
+        for side, si, els, put, got, objs in (('input', 2, ins, put_ins, got_ins, again.inputs),
+                                              ('output', 1, outs, put_outs, got_outs, again.outputs)):
+            for k, e in enumerate(els):
+                back = got[k][si]
+                if back != e['src']:
+                    try:
+                        now = objs[k].script.template.name
+                    except Exception as x:  # noqa
+                        now = f'no template ({type(x).__name__})'
+                    bad = (f'C15/G5/{clause}/script-bytes-changed/{side}',
+                           f'{side} {k} was written with the {len(e["src"])}-byte {e["tmpl"]} script {hexs(e["src"], 60)} and read back as '
+                           f'{len(back or b"")} bytes {hexs(back or b"", 60)} = {now}')
+                elif got[k] != put[k]:
+                    bad = (f'C15/G5/{clause}/fields-changed/{side}',
+                           f'{side} {k}: wrote {put[k][:si] + put[k][si + 1:]!r} around the script, read {got[k][:si] + got[k][si + 1:]!r}')
+                if bad:
+                    break
+            if bad:
+                break
+        if not bad and got_lock != locktime:
+            bad = (f'C15/G5/{clause}/fields-changed/locktime', f'lock time {locktime} read back as {got_lock}')
+        if bad:
+            rec.violation(bad[0], f'{what}: {lens}: {bad[1]}', wit, case=replay)
+            continue
+        # same bytes; the statement speaks of template and values, so read them off the re-read transaction's own script objects
+        for side, els, objs in (('input', ins, again.inputs), ('output', outs, again.outputs)):
+            for k, e in enumerate(els):
+                try:
+                    name, vals = plain_parse(objs[k].script)
+                except Exception as x:  # noqa
+                    rec.violation(f'C15/G5/{clause}/parse-raises/{e["tmpl"]}/{type(x).__name__}',
+                                  f'{what}: {side} {k} of the re-read transaction does not parse: {x!r}', wit, case=replay)
+                    continue
+                rec.hit('G5.parse_checked')
+                if name != e['tmpl']:
+                    rec.violation(f'C15/G5/{clause}/template-mismatch/{e["tmpl"]}-read-as-{name}',
+                                  f'{what}: {side} {k} of the re-read transaction parses as {name}', wit, case=replay)
+                elif vals != e['exp']:
+                    slot = sorted(s for s in set(vals) | set(e['exp']) if vals.get(s) != e['exp'].get(s))[0]
+                    rec.violation(f'C15/G5/{clause}/value-mismatch/{e["tmpl"]}/{slot}',
+                                  f'{what}: {side} {k} of the re-read transaction has another {slot}', wit, case=replay)
+    return raw
+
+
+def fit_length(rec, side, tmpl, via, spec, slot, height, total):
+    """set the length of spec[slot] so that the whole generated script is `total` bytes long.  The push header width depends on the
+    length, so iterate to the fixed point; a few totals cannot be reached through a given slot (-> False, nearest kept)."""
+    seed = spec[slot][2]
+    n = max(0, total - 40)
+    for _ in range(6):
+        spec[slot] = ['r', n, seed]
+        try:
+            got = generate(rec, side, tmpl, via, {k: mk(v) for k, v in spec.items()}, height)
+        except Exception:  # noqa  (check_generated reports it on the same input)
+            return False
+        if got is None:
+            return False
+        if len(got[0]) == total:
+            return True
+        n = max(0, n + total - len(got[0]))
+    return False
 
 
 # ------------------------------------------------------------------ generators of hostile byte strings
@@ -733,7 +950,8 @@ def execute(rec, case):
     fam = case['fam']
     if fam == 'gen1':
         vals = {k: mk(v) for k, v in case['vals'].items()}
-        check_generated(rec, case['side'], case['tmpl'], case['via'], vals, case.get('height'), replay=case)
+        check_generated(rec, case['side'], case['tmpl'], case['via'], vals, case.get('height'), replay=case,
+                        carry=case.get('carry', True))
     elif fam == 'bytes1':
         src = bytes.fromhex(case['hex'])
         if case.get('side', 'output') == 'output':
@@ -774,9 +992,29 @@ def execute(rec, case):
             if 'timelock' in tmpl:
                 one['height'] = r.choice(HEIGHTS[1:])
             check_generated(rec, side, tmpl, via, {k: mk(v) for k, v in spec.items()}, one.get('height'), replay=one,
-                            g3=(n % 4 == 0))
+                            g3=(n % 4 == 0), carry=(n % 4 == 2))
             if rec.out_of_time():
                 break
+    elif fam == 'frame':
+        side, tmpl, slot = case['side'], case['tmpl'], case['slot']
+        r = random.Random(case['seed'])
+        slots = slots_of(side, tmpl)
+        vias = vias_of(side, tmpl)
+        for total in range(case['lo'], case['hi'] + 1):
+            spec = {s: small_spec(r, s) for s in slots}
+            spec[slot] = ['r', 0, r.getrandbits(32)]
+            via = vias[total % len(vias)]
+            one = {'fam': 'gen1', 'side': side, 'tmpl': tmpl, 'via': via, 'vals': spec, 'carry': True}
+            if 'timelock' in tmpl:
+                one['height'] = r.choice(HEIGHTS[1:])
+            rec.hit('G5.frame_fitted' if fit_length(rec, side, tmpl, via, spec, slot, one.get('height'), total)
+                    else 'G5.frame_total_not_reached_through_this_slot')
+            check_generated(rec, side, tmpl, via, {k: mk(v) for k, v in spec.items()}, one.get('height'), replay=one,
+                            g3=False, carry=True)
+            if rec.out_of_time():
+                break
+    elif fam == 'txcount':
+        exec_txcount(rec, case)
     elif fam == 'randgen':
         r = random.Random(case['seed'])
         for _ in range(case['count']):
@@ -799,7 +1037,7 @@ def execute(rec, case):
             if 'timelock' in tmpl:
                 w = r.randrange(1, 6)
                 one['height'] = r.choice([r.choice(HEIGHTS), r.randrange(1 << (8 * w - 1)), r.randrange(1, 2 ** 32)])
-            check_generated(rec, side, tmpl, via, {k: mk(v) for k, v in spec.items()}, one.get('height'), replay=one)
+            check_generated(rec, side, tmpl, via, {k: mk(v) for k, v in spec.items()}, one.get('height'), replay=one, carry=True)
             if rec.out_of_time():
                 break
     elif fam == 'enum':
@@ -876,6 +1114,35 @@ def exec_nonminimal(rec, case):
     if not all(t.minimal for t in ref.tokens if t.is_push):
         rec.hit('G3.nonminimal_with_a_nonminimal_push')
     check_output_bytes(rec, src, 'nonminimal', replay=case)
+
+
+def exec_txcount(rec, case):
+    """G5 on the number of inputs / outputs: a transaction carrying n generated scripts on one side."""
+    r = random.Random(case['seed'])
+    side = 'output' if case['side'] == 'outputs' else 'input'
+    names = [t for t in (OUT_T if side == 'output' else IN_T) if t != 'timelock']
+    els = []
+    while len(els) < case['n']:
+        tmpl = r.choice(names)
+        vals = {s: mk(small_spec(r, s)) for s in slots_of(side, tmpl)}
+        height = r.choice(HEIGHTS[1:]) if 'timelock' in tmpl else None
+        if height is not None and not vals['pubkey_hash']:
+            vals['pubkey_hash'] = r.randbytes(20)         # the constructor refuses an empty hash (logged in G1)
+        try:
+            got = generate(rec, side, tmpl, r.choice(vias_of(side, tmpl)), vals, height)
+        except Exception as x:  # noqa  (generation failures are judged by G1 on the same input classes)
+            rec.log(f'G5.count.generate_raises/{type(x).__name__}')
+            got = None
+        if got is None:
+            continue
+        els.append({'src': got[0], 'tmpl': tmpl, 'exp': expected_plain(tmpl, vals, height)})
+    guards = carry_guards()
+    what = f'transaction with {case["n"]} generated {side} scripts'
+    raw = check_carried(rec, els, guards['out'][:1], what, case) if side == 'input' else \
+        check_carried(rec, guards['in'][:1], els, what, case)
+    if raw is not None:
+        rec.case(b'n' + raw)
+        rec.hit('G5.count_checked')
 
 
 def exec_pushmany(rec, case):
